@@ -17,7 +17,7 @@ def argv_of(rec, outdir):
         if o == 'twopl':
             a.append('-twopl')
         elif o in ('t1', 't2'):
-            a += [FLAGS[o], repr(v / 20.0)]
+            a += [FLAGS[o], repr(v / 20.0 + (rec.get('eps') or {}).get(o, 0) * 2.0 ** -40)]
         elif o == 'skew':
             a += [FLAGS[o], repr(v / 2.0)]
         else:
